@@ -209,49 +209,50 @@ Proof.
     destruct (groupby t) as [|[k0 g0] rest] eqn:EG.
     + (* t = [] *)
       destruct t as [|y t']; [|contradiction].
-      cbn. repeat split; try tauto.
-      * intros kg [<-|[]]. cbn. lia.
-      * intro k. unfold byparent. cbn. destruct (Z.eqb_spec (c_parent x) k); reflexivity.
-      * intros kg [].
+      cbn. repeat split; try tauto; try (intros kg [<-|[]]; cbn; lia); try (intros kg []);
+        try (intro k; unfold byparent; cbn; destruct (Z.eqb_spec (c_parent x) k); reflexivity).
     + destruct t as [|y t']; [contradiction|]. subst k0.
       assert (Hxy : c_parent x <= c_parent y) by (inversion Hall; assumption).
       destruct (Z.eqb_spec (c_parent y) (c_parent x)) as [Heq|Hne].
       * (* same group *)
-        repeat split.
+        cbv iota. repeat split.
         -- cbn. exact Heq.
         -- intros kg [<-|Hin]; cbn; [lia|]. specialize (Hge kg (or_intror Hin)). cbn in Hge. lia.
         -- intro k. cbn [dict_last]. specialize (Hdict k). cbn [dict_last] in Hdict.
-           unfold byparent in *. cbn [filter]. rewrite <- Heq.
+           unfold byparent in *.
+           set (F := filter (fun c => c_parent c =? k) (y :: t')) in *.
+           assert (HF : filter (fun c => c_parent c =? k) (x :: y :: t') = if c_parent x =? k then x :: F else F)
+             by reflexivity.
+           rewrite HF. clear HF. rewrite <- Heq.
            destruct (dict_last k rest) as [z|] eqn:ER.
-           ++ (* k is a key of rest, hence larger than parent y *)
-              destruct (Z.eqb_spec (c_parent y) k) as [Hk|Hk].
+           ++ destruct (Z.eqb_spec (c_parent y) k) as [Hk|Hk].
               ** exfalso. rewrite dict_last_none in ER; [discriminate|].
                  intros kg Hkg. specialize (Hinc kg Hkg). lia.
               ** exact Hdict.
            ++ destruct (Z.eqb_spec (c_parent y) k) as [Hk|Hk].
-              ** cbn [filter] in Hdict. rewrite Hk, Z.eqb_refl in Hdict. rewrite Hk, Z.eqb_refl.
-                 unfold nonempty_opt in Hdict. inversion Hdict as [Hg]. reflexivity.
+              ** destruct F as [|f F']; cbn in Hdict; [discriminate|]. inversion Hdict. reflexivity.
               ** exact Hdict.
         -- exact Hinc.
       * (* a new group in front *)
         assert (Hlt : c_parent x < c_parent y) by lia.
-        repeat split.
+        cbv iota. repeat split.
         -- intros kg [<-|Hin]; cbn; [lia|]. specialize (Hge kg Hin). cbn in Hge. lia.
-        -- intro k. cbn [dict_last]. rewrite (Hdict k). unfold byparent. cbn [filter].
+        -- intro k. pose proof (Hdict k) as Hd. cbn [dict_last] in Hd |- *. rewrite Hd. clear Hd. unfold byparent.
+           set (F := filter (fun c => c_parent c =? k) (y :: t')).
+           assert (HF : filter (fun c => c_parent c =? k) (x :: y :: t') = if c_parent x =? k then x :: F else F)
+             by reflexivity.
+           rewrite HF. clear HF.
            destruct (Z.eqb_spec (c_parent x) k) as [Hk|Hk].
-           ++ (* nothing in t has parent k *)
-              assert (Hnone : filter (fun c => c_parent c =? k) (y :: t') = []).
-              { apply (proj1 (Forall_forall _ _) ) with (x := y) in Hall as Hy; [|left; reflexivity].
-                clear - Hs Hlt Hk. subst k.
+           ++ assert (Hnone : F = []).
+              { subst F. clear - Hs Hlt Hk. subst k.
                 inversion Hs as [|y0 t0 Hall' Hs']; subst.
                 cbn. destruct (Z.eqb_spec (c_parent y) (c_parent x)); [lia|].
-                induction t' as [|z t'' IHt]; [reflexivity|]. cbn.
+                clear Hs Hs'. induction t' as [|z t'' IHt]; [reflexivity|]. cbn.
                 inversion Hall' as [|z0 t0 Hz Hrest]; subst.
                 destruct (Z.eqb_spec (c_parent z) (c_parent x)); [lia|].
-                apply IHt; [|exact Hrest].
-                inversion Hs' as [|z1 t1 Ha Hb]; subst. constructor; [exact Hrest|exact Hb]. }
+                apply IHt. exact Hrest. }
               rewrite Hnone. reflexivity.
-           ++ destruct (nonempty_opt (filter (fun c => c_parent c =? k) (y :: t'))); reflexivity.
+           ++ destruct (nonempty_opt F); reflexivity.
         -- intros kg Hin. specialize (Hge kg Hin). cbn in Hge. lia.
 Qed.
 
@@ -298,7 +299,7 @@ Proof.
   destruct (find_col r cs) as [x|] eqn:E.
   - apply find_col_in in E. destruct E as [Hin Hid].
     rewrite (find_last_unique _ _ x); [reflexivity | apply sort_cols_in; exact Hin | apply Z.eqb_eq; exact Hid|].
-    intros y Hy Hp. apply sort_cols_in in Hy. apply Z.eqb_eq in Hp. apply (nodup_ids_unique cs); try assumption. congruence.
-  - rewrite find_last_none; [reflexivity|]. intros x Hx. apply sort_cols_in in Hx.
+    intros y Hy Hp. apply (proj1 (sort_cols_in _ _)) in Hy. apply Z.eqb_eq in Hp. apply (nodup_ids_unique cs); try assumption. congruence.
+  - rewrite find_last_none; [reflexivity|]. intros x Hx. apply (proj1 (sort_cols_in _ _)) in Hx.
     apply Z.eqb_neq. apply (find_col_none r cs E x Hx).
 Qed.
